@@ -82,7 +82,8 @@ def kp_scan(v, old, le_, unsup=False, xname="X_test"):
     return kp_static(v, old, unsup, xname) + [
         ("i", conj(le(0, i), lt(i, length(ps.nodes)))),
         ("count", eq(v.g_m, vmin(k, j))),
-    ] + buffer_clauses(n, k, v.distances, v.neighbours_idx, v.g_slot, v.g_m, j, lambda t: WQ(v, i, t))
+    ] + buffer_clauses(n, k, v.distances, v.neighbours_idx, v.g_slot, v.g_m, j, lambda t: WQ(v, i, t),
+                       stable=True)
 
 
 def kp_bubble(v, old, le_, unsup=False, xname="X_test"):
@@ -93,9 +94,11 @@ def kp_bubble(v, old, le_, unsup=False, xname="X_test"):
         ("i", conj(le(0, i), lt(i, length(ps.nodes)), le(0, j), lt(j, n))),
         ("count", eq(v.g_m, vmin(k, j))),
         ("slot_same", forall(0, n, lambda t: eq(v.g_slot[t], le_.g_slot[t]))),
-    ] + bubble_clauses(k, c, v.distances, v.neighbours_idx, le_.distances, le_.neighbours_idx, j, WQ(v, i, j))
+    ] + bubble_clauses(k, c, v.distances, v.neighbours_idx, le_.distances, le_.neighbours_idx, j, WQ(v, i, j),
+                       strict=True)
     out += [("snap_" + nm, t) for nm, t in
-            buffer_clauses(n, k, le_.distances, le_.neighbours_idx, le_.g_slot, v.g_m, j, lambda t: WQ(v, i, t))]
+            buffer_clauses(n, k, le_.distances, le_.neighbours_idx, le_.g_slot, v.g_m, j, lambda t: WQ(v, i, t),
+                           stable=True)]
     return out
 
 
@@ -114,7 +117,8 @@ def dens_mapped(v, raw):
 def full_buffer(v):
     sg = v.self.subgraph
     n = length(sg.nodes)
-    return buffer_clauses(n, v.best_k, v.distances, v.neighbours_idx, v.g_slot, v.g_m, n, lambda t: WQ(v, v.i, t)) + [
+    return buffer_clauses(n, v.best_k, v.distances, v.neighbours_idx, v.g_slot, v.g_m, n, lambda t: WQ(v, v.i, t),
+                          stable=True) + [
         ("count", conj(eq(v.g_m, v.best_k)))]
 
 
@@ -146,9 +150,10 @@ def kp_choose(v, old, le_, unsup=False, xname="X_test"):
             forall(0, kk, lambda t: le(val(t), v.cost)),
             disj(conj(eq(kk, 0), eq(v.cost, -FLOAT_MAX)),
                  conj(le(0, v.g_w), lt(v.g_w, kk), eq(v.cost, val(v.g_w)),
-                      forall(0, v.g_w, lambda t: lt(val(t), v.cost)),
                       eq(ps.nodes[i].predicted_label, N[nb[v.g_w]].predicted_label),
                       eq(ps.nodes[i].cluster_label, N[nb[v.g_w]].cluster_label) if unsup else True)))),
+        # tie policy (C09 only): the strict update keeps the FIRST maximiser in buffer order
+        ("tie_first_so_far", implies(gt(kk, 0), forall(0, v.g_w, lambda t: lt(val(t), v.cost)))),
     ]
     return out
 
@@ -170,12 +175,21 @@ def kp_answer(v, old, unsup=False):
         ("k_nearest_ascending", forall(0, k, lambda r, s: implies(lt(r, s), le(dist[r], dist[s])))),
         ("nobody_closer_outside", forall(0, n, lambda t: implies(forall(0, k, lambda r: ne(nb[r], t)),
                                                                  le(dist[k - 1], WQ(v, i, t))))),
+        # ... and WHICH k samples, in which order, is fixed by the data alone (C09): the buffer is strictly ascending in
+        # the lexicographic order on (distance to the query, position in the training set), and every sample outside
+        # comes after its last entry in that order; lemmas/KNearest.lean: at most one buffer satisfies this
+        ("tie_k_nearest_lex_ascending", forall(0, k, lambda r, s: implies(lt(r, s), disj(
+            lt(dist[r], dist[s]), conj(eq(dist[r], dist[s]), lt(nb[r], nb[s])))))),
+        ("tie_outside_lex_after", forall(0, n, lambda t: implies(forall(0, k, lambda r: ne(nb[r], t)), disj(
+            lt(dist[k - 1], WQ(v, i, t)), conj(eq(dist[k - 1], WQ(v, i, t)), lt(nb[k - 1], t)))))),
         # density from those k distances with the stored constant and range
         ("density_formula", conj(ps_chain(v, k), eq(v.density, dens_mapped(v, v.g_ps[k] / k)))),
         # label (and cluster) of a neighbour maximising min(cost, density) among them
         ("winner", conj(le(0, w), lt(w, k), forall(0, k, lambda t: le(val(t), val(w))),
                         eq(ps.nodes[i].predicted_label, N[nb[w]].predicted_label),
                         eq(ps.nodes[i].cluster_label, N[nb[w]].cluster_label) if unsup else True)),
+        # ... the FIRST such neighbour in buffer order (strict update), so the winner too is fixed by the data (C09)
+        ("tie_winner_is_first_maximiser", forall(0, w, lambda t: lt(val(t), val(w)))),
     ]
 
 
